@@ -13,8 +13,9 @@ props = [json.loads(l)["id"] for l in open(os.path.join(V, "properties.jsonl"))]
 na = json.load(open(os.path.join(V, "not_applicable.json")))
 checks = []
 claimed = set()
+ready = json.load(open(os.path.join(V, "claimed.json")))
 for pid in props:
-    if not os.path.exists(os.path.join(V, "contracts", pid + ".py")):
+    if pid not in ready or not os.path.exists(os.path.join(V, "contracts", pid + ".py")):
         continue
     mod = importlib.import_module("contracts." + pid)
     m = getattr(mod, "MANIFEST", None)
